@@ -47,7 +47,7 @@ from toqito.measurement_ops.measure import measure
 from toqito.measurement_props import is_povm
 
 from .. import qgen
-from ..exact import Pure, case_rng, present_nd, present_obj
+from ..exact import Pure, case_rng, present_nd, present_obj, strict_fp_call
 from ..exact import describe as pdescribe
 from .c19_rec import Recorder, dyadic, replay_events, same_bits, state_key, undyadic, unrat
 
@@ -72,7 +72,11 @@ RULE = ("generators: every (function, option combination) for dimensions 1..6 - 
         "measure: tol as float / np.float64 / np.float32 and state_update as bool / np.bool_, by keyword or position; low-probability family: complete measurements "
         "(rank-one / coarse-grained projectors of a rotated eigenbasis, projectors followed by outcome-dependent unitaries, single projector) on states with eigenvalues from "
         "{4e-4, 1e-5, 3e-7, 2e-9, 3e-11}, tol from {default, 1e-8, 1e-6, 1e-3, 1e-2, 0.3} chosen a factor >= 2 away from every outcome probability and (non-trivial =) "
-        "above at least one probability >= 1e-11, plus all outcomes below tol (maximally mixed two-qubit state, tol 0.3)")
+        "above at least one probability >= 1e-11, plus all outcomes below tol (maximally mixed two-qubit state, tol 0.3). "
+        "Wave-5 hardening: ensembles of kets given as ROW vectors (1, d) and lists mixing 1-D / column / row / density-matrix elements (row vector first or not) go through the "
+        "whole PGM / PBM check; strict-fp stream: measure (single operator, list, tuple; outcomes of probability exactly 0: block-supported states under diagonal projectors / "
+        "permutation partial isometries), pretty_good / pretty_bad_measurement (all ensemble forms) and every seeded generator are evaluated a second time with NumPy's error state "
+        "set to raise for invalid / divide / overflow (harness.exact.strict_fp_call) and must return bitwise the value of the default state")
 ASSUMPTIONS = [
     "recording proxy: the generator functions reach NumPy's random machinery through the attribute np.random.default_rng and LAPACK through np.linalg.qr / svd / eigh, "
     "scipy.linalg.fractional_matrix_power at call time (patched for the duration of one call); code that binds these at import time would show as a broken "
@@ -1341,11 +1345,24 @@ def check_seed_pairs(ctx, rep):
 
 # ------------------------------------------------------------------------------------------------ C. PGM / PBM
 
-def gen_ensemble(rng, spanning=True):
+def ket_forms(rng, vecs, form):
+    """kets in the forms to_density_matrix (hence pretty_good_measurement and pretty_bad_measurement) accepts: 1-D (d,), column (d, 1), ROW (1, d);
+    "mixed*": one list mixing them with density matrices (each element is converted on its own), "mixed_row_first" starts with a row vector"""
+    one = {"vec1d": lambda v: v, "col": lambda v: v.reshape(-1, 1), "row": lambda v: v.reshape(1, -1), "dm_pure": lambda v: np.outer(v, np.conj(v))}
+    if form in one:
+        return [one[form](v) for v in vecs]
+    kinds = [str(rng.choice(["vec1d", "col", "row", "dm_pure"])) for _ in vecs]
+    kinds[0] = "row" if form == "mixed_row_first" else kinds[0]
+    if form == "mixed" and "row" not in kinds:
+        kinds[-1] = "row"
+    return [one[k](v) for k, v in zip(kinds, vecs)]
+
+
+def gen_ensemble(rng, spanning=True, forms=("vec1d", "col", "dm_pure", "dm_mixed")):
     d = int(rng.choice([2, 2, 3, 3, 4]))
     n = int(rng.integers(2, 7))
     cplx = bool(rng.integers(2))
-    form = str(rng.choice(["vec1d", "col", "dm_pure", "dm_mixed"]))
+    form = str(rng.choice(list(forms)))
     for _ in range(200):
         if form == "dm_mixed":
             rhos = [qgen.rand_density(rng, d, int(rng.integers(1, d + 1)), cplx) for _ in range(n)]
@@ -1355,7 +1372,7 @@ def gen_ensemble(rng, spanning=True):
             if not cplx:
                 vecs = [v.real for v in vecs]
             rhos = [np.outer(v, np.conj(v)) for v in vecs]
-            states = {"vec1d": vecs, "col": [v.reshape(-1, 1) for v in vecs], "dm_pure": rhos}[form]
+            states = ket_forms(rng, vecs, form) if form in ("row", "mixed", "mixed_row_first") else {"vec1d": vecs, "col": [v.reshape(-1, 1) for v in vecs], "dm_pure": rhos}[form]
         # dyadic priors, zeros allowed
         tot = 64
         cuts = sorted(int(c) for c in rng.integers(0, tot + 1, size=n - 1))
@@ -1442,7 +1459,11 @@ def check_pgm(ctx, rep, inst, with_opt=True, model_ok=True):
     n = len(states)
     args = {"kind": "pgm", "dim": d, "n": n, "form": form, "complex": cplx, "probs": probs, "states": [np.asarray(s).tolist() for s in states] if not cplx else
             [[[float(np.real(z)), float(np.imag(z))] for z in np.asarray(s).reshape(-1)] for s in states], "lambda_min": lam}
-    ctx.case({k: args[k] for k in ("kind", "dim", "n", "form", "complex", "probs", "states")}, n >= 2 and d >= 2, f"pgm/{form}/d={d}")
+    keys = ("kind", "dim", "n", "form", "complex", "probs", "states")
+    if form in ("row", "mixed", "mixed_row_first"):
+        args["shapes"] = [list(np.shape(s)) for s in states]
+        keys += ("shapes",)
+    ctx.case({k: args[k] for k in keys}, n >= 2 and d >= 2, f"pgm/{form}/d={d}")
     info = {"function": "pretty_good_measurement", "args": args, "theorem": "pgm_is_povm"}
     prng = case_rng("c19/pgm", d, form, cplx, probs, args["states"])
     # real-valued states start as complex128, so that each element independently arrives as complex128 / float64 / int64 (dtype-mixed lists)
@@ -1510,7 +1531,8 @@ def check_pgm(ctx, rep, inst, with_opt=True, model_ok=True):
     if with_opt and not bad:
         from toqito.state_opt import state_distinguishability
         p_pgm = float(sum(p * np.trace(r @ np.asarray(m)).real for p, r, m in zip(probs, rhos, M)))
-        st, res = _call(state_distinguishability, [np.array(s) for s in states], list(probs))
+        # (the optimum is the oracle here, not the function under test: row-vector / mixed lists are handed over as density operators)
+        st, res = _call(state_distinguishability, [np.array(s) for s in (rhos if "shapes" in args else states)], list(probs))
         if st != "ok":
             if res.split(":")[0] in ("ArithmeticError", "ZeroDivisionError"):
                 ctx.count("pgm/solver-numerical-failure")
@@ -1835,6 +1857,132 @@ def check_is_povm(ctx, rep, rng):
 
 # ------------------------------------------------------------------------------------------------ entry points
 
+# ------------------------------------------------------------------------------------------------ F. NumPy's floating-point error state
+STRICT_FNS = {"measure": measure, "pretty_good_measurement": pretty_good_measurement, "pretty_bad_measurement": pretty_bad_measurement,
+              "random_unitary": random_unitary, "random_density_matrix": random_density_matrix, "random_psd_operator": random_psd_operator,
+              "random_orthonormal_basis": random_orthonormal_basis, "random_state_vector": random_state_vector, "random_states": random_states,
+              "random_povm": random_povm, "random_circulant_gram_matrix": random_circulant_gram_matrix, "random_ginibre": random_ginibre}
+
+
+def _cj(x):
+    x = np.asarray(x, dtype=complex)
+    return {"shape": list(x.shape), "re": x.real.reshape(-1).tolist(), "im": x.imag.reshape(-1).tolist()}
+
+
+def strict_fp_cases(rng, count):
+    """(function name, positional arguments, keyword arguments, canonical description) of the strict-fp stream: a fixed corpus, then `count` random rounds.
+    * measure, single operator and list / tuple, with and without state_update, with outcomes of probability EXACTLY zero: the state is supported on the
+      first r < d computational basis vectors (a random density operator of that block, or |0><0|) and the operators are the diagonal projectors
+      |i><i| or the partial isometries |s(i)><i| of a permutation s (Kraus form) - every product with the state is an exact zero for i >= r;
+    * pretty_good_measurement / pretty_bad_measurement on spanning ensembles (priors with exact zeros occur), all ensemble forms;
+    * every random generator with a seed, dimensions 1..6 and their options."""
+    out = []
+
+    def meas(d, rho, ops, single, upd, tol, label):
+        kw = {"state_update": upd} if tol is None else {"state_update": upd, "tol": tol}
+        m = ops[-1] if single else ops
+        out.append(("measure", (rho, m), kw, {"kind": "strict_fp", "function": "measure", "what": label, "dim": d, "single": single, "state_update": upd, "tol": tol,
+                                              "rho": _cj(rho), "ops": [_cj(o) for o in ([m] if single else ops)]}))
+
+    e2 = [np.diag([1.0, 0.0]), np.diag([0.0, 1.0])]
+    for upd in (True, False):       # corpus: rho = |0><0| measured in the computational basis, and with the single impossible operator |1><1|
+        for rho0 in (np.diag([1.0, 0.0]), np.diag([1.0 + 0j, 0.0]), np.array([[1, 0], [0, 0]])):
+            meas(2, rho0, [o.astype(rho0.dtype if rho0.dtype.kind != "i" else float) for o in e2], False, upd, None, "impossible-outcome/corpus")
+            meas(2, rho0, [o.astype(complex) for o in e2], True, upd, None, "impossible-outcome/corpus")
+    for _ in range(count):
+        d = int(rng.integers(2, 5))
+        r = int(rng.integers(1, d))
+        cplx = bool(rng.integers(2))
+        rho = np.zeros((d, d), dtype=complex)
+        rho[:r, :r] = qgen.rand_density(rng, r, int(rng.integers(1, r + 1)), cplx)
+        if not cplx:
+            rho = rho.real.copy()
+        perm = [int(x) for x in rng.permutation(d)] if rng.integers(2) else list(range(d))
+        ops = []
+        for i in range(d):
+            o = np.zeros((d, d), dtype=complex if rng.integers(2) else float)
+            o[perm[i], i] = 1
+            ops.append(o)
+        container = tuple if rng.integers(3) == 0 else list
+        meas(d, rho, container(ops), False, bool(rng.integers(2)), [None, None, 1e-8, 1e-3][int(rng.integers(4))], "impossible-outcome/block-state")
+        meas(d, rho, ops, True, bool(rng.integers(2)), [None, 1e-8][int(rng.integers(2))], "impossible-outcome/block-state")
+        inst = gen_ensemble(rng, True, ("vec1d", "col", "row", "mixed", "dm_pure", "dm_mixed"))
+        if inst is not None:
+            dd, states, rhos, probs, form, cx, lam = inst
+            for fname in ("pretty_good_measurement", "pretty_bad_measurement"):
+                for pr in ((list(probs),), ()) if float(np.linalg.eigvalsh(sum(rhos) / len(rhos)).min()) >= 2e-2 else ((list(probs),),):
+                    out.append((fname, (list(states),) + pr, {}, {"kind": "strict_fp", "function": fname, "what": f"ensemble/{form}", "dim": dd,
+                                                                  "states": [_cj(s_) for s_ in states], "probs": list(pr[0]) if pr else None}))
+        # generators with a seed
+        d = int(rng.integers(1, 7))
+        real = bool(rng.integers(2))
+        seed = int(rng.integers(2 ** 32)) if rng.integers(4) else int(rng.integers(2))
+        k = int(rng.integers(1, d + 1))
+        gens = [("random_unitary", ([d, d] if rng.integers(2) else d, real), {}),
+                ("random_density_matrix", (d, real, [None, k][int(rng.integers(2))], "haar"), {}),
+                ("random_density_matrix", (d, real, None, "bures"), {}),
+                ("random_psd_operator", (d, real), {}),
+                ("random_orthonormal_basis", (d, real), {}),
+                ("random_state_vector", (d,), {"is_real": real, "k_param": int(rng.integers(0, d + 1))}),
+                ("random_states", (int(rng.integers(1, 5)), d), {}),
+                ("random_povm", (d, int(rng.integers(1, 4)), int(rng.integers(1, 5))), {}),
+                ("random_circulant_gram_matrix", (d,), {}),
+                ("random_ginibre", (d, int(rng.integers(1, 5))), {})]
+        for j in (int(x) for x in rng.choice(len(gens), size=3, replace=False)):
+            fname, pos, kw = gens[j]
+            kw = {**kw, "seed": seed}
+            out.append((fname, pos, kw, {"kind": "strict_fp", "function": fname, "what": "generator", "pos": [p if not isinstance(p, list) else list(p) for p in pos], "kw": kw}))
+    return out
+
+
+def _same_value(x, y):
+    if isinstance(x, (list, tuple)) or isinstance(y, (list, tuple)):
+        return isinstance(x, (list, tuple)) and isinstance(y, (list, tuple)) and len(x) == len(y) and all(_same_value(a, b) for a, b in zip(x, y))
+    x, y = np.asarray(x), np.asarray(y)
+    return x.shape == y.shape and bool(np.array_equal(x, y, equal_nan=True))
+
+
+def check_strict_fp(ctx, rep, fname, pos, kw, desc, stream_seed, count):
+    """the VALUE of a call does not depend on NumPy's global floating-point error state: evaluated with invalid / divide / overflow set to 'raise' (and the
+    corresponding RuntimeWarnings as errors) the function returns what it returns in the default state - the value the other streams compare with the
+    model.  A 0/0 evaluated for an impossible outcome and discarded afterwards (np.where) is invisible in the default state and raises here."""
+    fn = STRICT_FNS[fname]
+    args = {**desc, "stream_seed": stream_seed, "count": count}
+    ctx.case(desc, True, f"strict-fp/{fname}/{desc['what']}")
+    info = {"function": fname, "args": args, "theorem": "(the value specified by the property's theorems for this input - measure_born / measure_model_below_tol, pgm_is_povm, pbm_is_povm, "
+            "the generator theorems - is a function of the arguments; NumPy's error state is not an argument)"}
+    st0, v0 = _call(fn, *pos, **kw)
+    st1, v1 = strict_fp_call(fn, *pos, **kw)
+    if st0 != "ok":
+        return ctx.count(f"strict-fp/default-state-raises/{fname}")       # judged by the stream of that function, not here
+    if st1 != "ok":
+        return rep.fail("fp-error-state", f"{fname}: the value depends on NumPy's floating-point error state - with np.seterr(invalid='raise', divide='raise', over='raise') the call "
+                        f"raises {v1} where the default state returns a value ({desc['what']}; {show_strict(desc)})", {**info, "impl": v1, "default_state": v0})
+    if not _same_value(v0, v1):
+        return rep.fail("fp-error-state-value", f"{fname}: a different value under np.seterr(invalid='raise', ...) than in the default state ({desc['what']}; {show_strict(desc)})",
+                        {**info, "impl": v1, "default_state": v0})
+    ctx.count(f"strict-fp/same-value/{fname}")
+
+
+def show_strict(desc):
+    if desc["function"] == "measure":
+        rho = np.array(desc["rho"]["re"]).reshape(desc["rho"]["shape"]) + 1j * np.array(desc["rho"]["im"]).reshape(desc["rho"]["shape"])
+        ops = [np.array(o["re"]).reshape(o["shape"]) for o in desc["ops"]]
+        return (f"state {np.round(rho, 4).tolist() if np.abs(rho.imag).max() else np.round(rho.real, 4).tolist()}, "
+                f"{'operator' if desc['single'] else 'operators'} {[o.astype(int).tolist() for o in ops]}, state_update={desc['state_update']}, tol={desc['tol']}")
+    if "states" in desc:
+        return f"d={desc['dim']}, {len(desc['states'])} states of shapes {[tuple(s_['shape']) for s_ in desc['states']]}, probs={desc['probs']}"
+    return f"{desc['function']}({', '.join(repr(p) for p in desc['pos'])}, {', '.join(f'{k}={v!r}' for k, v in desc['kw'].items())})"
+
+
+def run_strict_fp(ctx, rep, quick):
+    srng = ctx.rng.spawn(1)[0]
+    stream_seed = int(srng.integers(2 ** 31))
+    count = 40 if quick else 1000
+    for fname, pos, kw, desc in strict_fp_cases(np.random.default_rng(stream_seed), count):
+        check_strict_fp(ctx, rep, fname, pos, kw, desc, stream_seed, count)
+
+
 def install_matchers(ctx):
     def bures(info):
         a = info.get("args", {})
@@ -1876,6 +2024,18 @@ def run(ctx, model_ok=True):
         inst = gen_ensemble(rng, True)
         if inst is not None:
             check_pgm(ctx, rep, inst, True, model_ok)
+    # kets as ROW vectors (1, d) - a form to_density_matrix accepts - and lists mixing 1-D, column, row and density-matrix elements (own rng: the
+    # streams above keep their inputs).  Corpus: the two-state and the qutrit ensemble with a row vector first
+    erng = rng.spawn(1)[0]
+    v2 = [np.array([[0.6, 0.8]]), np.array([[0.8, -0.6j]])]
+    check_pgm(ctx, rep, (2, v2, [np.outer(v.reshape(-1), v.reshape(-1).conj()) for v in v2], [0.25, 0.75], "row", True, 0.25), True, model_ok)
+    v3 = [np.array([[1.0, 0.0, 0.0]]), np.array([0.0, 0.6, 0.8]), np.array([[0.0], [0.8], [-0.6]]), np.array([[0.6, 0.0, 0.8]])]
+    check_pgm(ctx, rep, (3, v3, [np.outer(v.reshape(-1), v.reshape(-1).conj()) for v in v3], [0.25] * 4, "mixed_row_first", False, 0.25), True, model_ok)
+    for i in range(12 if quick else 300):
+        inst = gen_ensemble(erng, True, ("row", "row", "mixed", "mixed_row_first"))
+        if inst is not None:
+            check_pgm(ctx, rep, inst, i % 3 == 0, model_ok)
+    run_strict_fp(ctx, rep, quick)
     for i in range(4 if quick else 30):
         inst = gen_ensemble(rng, False)
         if inst is not None:
@@ -1953,6 +2113,8 @@ def replay(ctx, rec):
             flat = [_c(s) for s in a["states"]]
             d = a["dim"]
             states = [f.reshape(d, d) if a["form"].startswith("dm") else (f.reshape(-1, 1) if a["form"] == "col" else f) for f in flat]
+            if "shapes" in a:
+                states = [f.reshape(sh) for f, sh in zip(flat, a["shapes"])]
         else:
             states = [np.array(s, dtype=float) for s in a["states"]]
         rhos = [s if s.ndim == 2 and s.shape[0] == s.shape[1] and s.shape[0] > 1 else np.outer(s.reshape(-1), s.reshape(-1).conj()) for s in states]
@@ -1968,6 +2130,10 @@ def replay(ctx, rec):
         st, got = _call(is_povm, mats)
         if st != "ok" or bool(got) != rec.get("expected"):
             ctx.violation("is_povm verdict (replay)", {"function": "is_povm", "args": a, "impl": got, "expected": rec.get("expected")})
+    elif k == "strict_fp":
+        for fname, pos, kw, desc in strict_fp_cases(np.random.default_rng(a.get("stream_seed", 0)), a.get("count", 0)):
+            if desc == {k_: v_ for k_, v_ in a.items() if k_ not in ("stream_seed", "count")}:
+                check_strict_fp(ctx, rep, fname, pos, kw, desc, a.get("stream_seed", 0), a.get("count", 0))
     elif k == "seed_pair":
         check_seed_pairs(ctx, rep)
     elif k == "np_dim":
